@@ -903,6 +903,21 @@ def reversal_kernel_rules(chk, S):
         r5.require(form == "joseph", f"reversal with solve_triu={src} in {m.name}.{fn}", "the kernel's backward noise carries the residual of the solve",
                    f"{kind} solve_triu={src}: for a rank-deficient observed factor the least-squares gain leaves a residual R12 - R_Y G^T != 0 whose Gram matrix the kernel drops -- "
                    "G S G^T + Q < Cov(x): the reversal does not reproduce the joint law (the backward noise is too small)", f"{m.relpath}:{line}")
+    # every other call site that fixes the solve: the kernel solves with its *upper-triangular* observed factor R_Y (decided above), so a fixed solve has to be
+    # exact for upper-triangular systems -- linalg.solve_triu, or a general exact solve; solve_tril reads the lower triangle (the diagonal) only
+    fixed = []
+    for m in S.p.modules.values():
+        if not m.name.startswith("probdiffeq.") or m.name.startswith("probdiffeq.backend"):
+            continue
+        for node in _ast.walk(m.tree):
+            if isinstance(node, _ast.keyword) and node.arg == "solve_triu" and isinstance(node.value, _ast.Attribute) and _ast.unparse(node.value).startswith("linalg.") and "lstsq" not in node.value.attr:
+                fixed.append((m, node.value.lineno, node.value.attr))
+    for m, line, name in sorted(fixed, key=lambda s_: (s_[0].relpath, s_[1])):
+        fn = _enclosing_function(m, line)
+        verdict = True if name in ("solve_triu", "solve_lu") else (False if name == "solve_tril" else None)
+        r5.require(verdict, f"reversal with solve_triu=linalg.{name} in {m.name}.{fn}", "an exact solve for the upper-triangular observed factor",
+                   f"solve_triu=linalg.{name}: the kernel calls it with the upper-triangular factor R_Y" + ("; a lower-triangular solve uses its diagonal only, the gain and the backward noise are wrong" if name == "solve_tril" else "; not a solve this rule knows"),
+                   f"{m.relpath}:{line}")
 
 
 def _enclosing_function(m, line):
